@@ -18,6 +18,7 @@ package slug
 //@   guide g: isPlainAbs(root) && isPlainRel(path) && (isDotDotRel(target) || isPlainAbs(target))
 
 //@ func (*Packer).Unpack -> (err)
+//@   opt propagate-errors
 //@   sweep
 //@   replay validSymlink: root=dst, path=header.Name, target=header.Linkname, nallow=len(p.allowSymlinkTargets)
 //@   guide g1: isPlainAbs(dst) && len(dst) <= 6 && isPlainAbs(header.Name) && len(header.Name) <= 6 && isDotDotRel(header.Linkname) && len(header.Linkname) <= 16
@@ -35,6 +36,7 @@ package slug
 //@ macro metaMatchesArchive(M): M != nil && len(M.Files) == $tarN && M.Size == $tarBody
 //@     && (0 <= anyIndex && anyIndex < $tarN ==> M.Files[anyIndex] == arrSelect($tarNames, anyIndex))
 //@ func (*Packer).Pack -> (meta, err)
+//@   opt propagate-errors
 //@   sweep
 //@   requires pre.p: p != nil
 //@   ghost $tarN Int = 0
@@ -47,6 +49,7 @@ package slug
 //@   ensures C12.pack.noresult: err != nil ==> meta == nil
 
 //@ func (*Packer).packWalkFn$1 -> (rerr)
+//@   opt propagate-errors
 //@   sweep
 //@   ghost $tarN Int
 //@   ghost $tarBody Int
